@@ -173,4 +173,28 @@ theorem C17_offset_concentration {ι : Type} [Fintype ι] (ν : MeasureTheory.Me
       ≤ ENNReal.ofReal (4 / ((D : ℝ) * ε ^ 2)) :=
   rff_offset_concentration ν D s x y κ hκ hε
 
+/-- `weight_offset`, exponential form: independent weight / offset pairs, feature products bounded by 2, so the estimate
+misses the kernel mean `κ` by `ε` with probability at most `2·exp(−D ε² / 8)` -/
+theorem C17_offset_hoeffding {ι : Type} [Fintype ι] (ν : MeasureTheory.Measure (ι → ℝ)) [MeasureTheory.IsProbabilityMeasure ν]
+    (D : ℕ) [NeZero D] (s : ℝ) (x y : ι → ℝ) (κ : ℝ)
+    (hκ : ∫ w : ι → ℝ, Real.cos (s * ∑ i, w i * (x i - y i)) ∂ν = κ) {ε : ℝ} (hε : 0 ≤ ε) :
+    (MeasureTheory.Measure.pi fun _ : Fin D => ν.prod μU).real
+      {Z | ε ≤ |(1 / (D : ℝ)) * ∑ j, 2 * Real.cos (s * ∑ i, (Z j).1 i * x i + (Z j).2)
+                    * Real.cos (s * ∑ i, (Z j).1 i * y i + (Z j).2) - κ|}
+      ≤ 2 * Real.exp (-((D : ℝ) * ε ^ 2) / 8) := by
+  have hmean : ∫ z : (ι → ℝ) × ℝ, 2 * Real.cos (s * ∑ i, z.1 i * x i + z.2) * Real.cos (s * ∑ i, z.1 i * y i + z.2)
+      ∂(ν.prod μU) = κ := by
+    have h := rff_offset_mean ν (fun w : ι → ℝ => s * ∑ i, w i * x i) (fun w : ι → ℝ => s * ∑ i, w i * y i)
+      (by fun_prop) (by fun_prop)
+    rw [h, ← hκ]
+    congr 1 with w
+    rw [← mul_sub, ← Finset.sum_sub_distrib]
+    congr 3 with i
+    ring
+  have h := rff_iid_hoeffding (ν.prod μU) D
+    (fun z : (ι → ℝ) × ℝ => 2 * Real.cos (s * ∑ i, z.1 i * x i + z.2) * Real.cos (s * ∑ i, z.1 i * y i + z.2))
+    (by fun_prop) 2 κ (by norm_num) (fun z => abs_two_cos_mul_cos_le _ _) hmean hε
+  have e : (2 : ℝ) * 2 ^ 2 = 8 := by norm_num
+  rwa [e] at h
+
 end Pk.C17
